@@ -23,9 +23,13 @@ pub enum Which {
     C02,
     C03,
     C06,
+    /// C06's scenarios, always over HTTP; judged by C07's statement (requests == maximal runs of the
+    /// chunks that are really missing)
+    C07,
 }
 
-fn scenarios(which: Which, u: &Universe, arch: &Arch, n: usize) -> Vec<Scenario> {
+fn scenarios(which0: Which, u: &Universe, arch: &Arch, n: usize) -> Vec<Scenario> {
+    let which = if which0 == Which::C07 { Which::C06 } else { which0 };
     let letters = u.letters();
     let mut v = vec![];
     let mk = |prior: Option<Vec<u8>>, seed_output: bool, seeds: Vec<Vec<u8>>| Scenario { prior, seed_output, seeds, fault: Fault::None, verify_output: false };
@@ -90,7 +94,8 @@ fn scenarios(which: Which, u: &Universe, arch: &Arch, n: usize) -> Vec<Scenario>
 
 /// Run the scenario families through the real clone_cmd. `block_dev`: set hook H1 so that the
 /// regular output file takes the block device code path (the whole process phase uses it).
-pub fn run(rep: &mut Report, which: Which, block_dev: bool) {
+pub fn run(rep: &mut Report, which0: Which, block_dev: bool) {
+    let which = if which0 == Which::C07 { Which::C06 } else { which0 };
     let thorough = rep.thorough();
     let lab = Lab::new(false);
     let n = if thorough { 3 } else { 2 };
@@ -208,7 +213,15 @@ pub fn run(rep: &mut Report, which: Which, block_dev: bool) {
                     } else if data_req != want {
                         let fetched: u64 = data_req.iter().map(|r| r.map(|(a, b)| b + 1 - a).unwrap_or(0)).sum();
                         let wanted: u64 = want.iter().map(|r| r.map(|(a, b)| b + 1 - a).unwrap_or(0)).sum();
-                        let class = if fetched > wanted { "available-chunk-fetched" } else if fetched < wanted { "missing-chunk-not-fetched" } else { "fetch-requests-differ" };
+                        let class = if which0 == Which::C07 {
+                            "requests-differ-from-maximal-runs-of-missing-chunks"
+                        } else if fetched > wanted {
+                            "available-chunk-fetched"
+                        } else if fetched < wanted {
+                            "missing-chunk-not-fetched"
+                        } else {
+                            "fetch-requests-differ"
+                        };
                         agg.viol(class, || detail(json!({"requests": data_req, "expected": want})));
                     }
                     if m.fetch.len() < arch.descs.len() {
